@@ -68,35 +68,63 @@ Proof.
   apply emit_single_or_fua_ok.
 Qed.
 
+Lemma flush_params_ok mtu st : held_ok st ->
+  exists fs, flush_params mtu st = Ok (mkH264Pay (hp_disable_stapa st) None None, fs) /\ frags_ok mtu fs.
+Proof.
+  intros [Hs Hp]. unfold flush_params.
+  assert (Hind : exists fs,
+            match (match hp_sps st with Some s => packetize_nalu mtu s | None => Ok [] end) with
+            | Ok f1 =>
+              match (match hp_pps st with Some p => packetize_nalu mtu p | None => Ok [] end) with
+              | Ok f2 => Ok (mkH264Pay (hp_disable_stapa st) None None, f1 ++ f2)
+              | Err e => Err e
+              | Panic => Panic
+              end
+            | Err e => Err e
+            | Panic => Panic
+            end = Ok (mkH264Pay (hp_disable_stapa st) None None, fs) /\ frags_ok mtu fs).
+  { assert (H1 : exists f1, (match hp_sps st with Some s => packetize_nalu mtu s | None => Ok [] end) = Ok f1 /\ frags_ok mtu f1).
+    { destruct (hp_sps st) as [sps|]; [|exists []; split; [reflexivity|apply frags_ok_nil]].
+      apply packetize_nalu_ok. intros ->. apply Hs. reflexivity. }
+    assert (H2 : exists f2, (match hp_pps st with Some p => packetize_nalu mtu p | None => Ok [] end) = Ok f2 /\ frags_ok mtu f2).
+    { destruct (hp_pps st) as [pps|]; [|exists []; split; [reflexivity|apply frags_ok_nil]].
+      apply packetize_nalu_ok. intros ->. apply Hp. reflexivity. }
+    destruct H1 as (f1 & -> & Hok1). destruct H2 as (f2 & -> & Hok2).
+    exists (f1 ++ f2). split; [reflexivity|apply frags_ok_app; assumption]. }
+  destruct (hp_sps st) as [sps|] eqn:Esps; [|exact Hind].
+  destruct (hp_pps st) as [pps|] eqn:Epps; [|exact Hind].
+  match goal with |- context [if ?c then _ else _] => destruct c eqn:E end; [|exact Hind].
+  eexists. split; [reflexivity|].
+  apply frags_ok_one. split; [|lia]. rewrite zlen_cons.
+  pose proof (zlen_nonneg (put16 (u16 (zlen sps)) ++ sps ++ put16 (u16 (zlen pps)) ++ pps)). lia.
+Qed.
+
 Lemma h264_nalu_ok mtu st nalu : held_ok st ->
   exists st' fs, h264_nalu mtu st nalu = Ok (st', fs) /\ frags_ok mtu fs /\ held_ok st'.
 Proof.
-  intros [Hs Hp].
+  intros Hst. pose proof Hst as [Hs Hp].
   unfold h264_nalu. destruct nalu as [|b0 body];
     [exists st, []; split; [reflexivity|split; [apply frags_ok_nil|split; assumption]]|].
   destruct (emit_single_or_fua_ok mtu (b0 :: body)) as (fs & Hrun & Hok). rewrite Hrun.
-  assert (Hnil : forall s, held_ok s ->
-            exists st' fs0, @Ok (h264pay * list bref) (s, []) = Ok (st', fs0) /\ frags_ok mtu fs0 /\ held_ok st')
-    by (intros s Hh; exists s, []; split; [reflexivity|split; [apply frags_ok_nil|exact Hh]]).
-  assert (Hsingle : forall s pre, held_ok s -> frags_ok mtu pre ->
-            exists st' fs0, @Ok (h264pay * list bref) (s, pre ++ fs) = Ok (st', fs0) /\ frags_ok mtu fs0 /\ held_ok st')
-    by (intros s pre Hh Hpre; exists s, (pre ++ fs); split; [reflexivity|split; [apply frags_ok_app; assumption|exact Hh]]).
-  assert (Hst : held_ok st) by (split; assumption).
-  destruct ((Z.land b0 31 =? 9) || (Z.land b0 31 =? 12)); [apply Hnil, Hst|].
+  destruct (flush_params_ok mtu st Hst) as (pre & Hfl & Hpre).
+  assert (Hsingle : forall s pre0, held_ok s -> frags_ok mtu pre0 ->
+            exists st' fs0, @Ok (h264pay * list bref) (s, pre0 ++ fs) = Ok (st', fs0) /\ frags_ok mtu fs0 /\ held_ok st')
+    by (intros s pre0 Hh Hpre0; exists s, (pre0 ++ fs); split; [reflexivity|split; [apply frags_ok_app; assumption|exact Hh]]).
+  destruct ((Z.land b0 31 =? 9) || (Z.land b0 31 =? 12));
+    [exists st, []; split; [reflexivity|split; [apply frags_ok_nil|exact Hst]]|].
   destruct (Z.land b0 31 =? 7).
-  { destruct (negb (hp_disable_stapa st)); [apply Hnil; split; [discriminate|exact Hp]|apply (Hsingle st []); [exact Hst|apply frags_ok_nil]]. }
+  { destruct (negb (hp_disable_stapa st)); [|apply (Hsingle st []); [exact Hst|apply frags_ok_nil]].
+    rewrite Hfl. cbn [hp_disable_stapa hp_pps]. eexists. exists pre. split; [reflexivity|]. split; [exact Hpre|].
+    split; cbn [hp_sps hp_pps]; discriminate. }
   destruct (Z.land b0 31 =? 8).
-  { destruct (negb (hp_disable_stapa st)); [apply Hnil; split; [exact Hs|discriminate]|apply (Hsingle st []); [exact Hst|apply frags_ok_nil]]. }
+  { destruct (negb (hp_disable_stapa st)); [|apply (Hsingle st []); [exact Hst|apply frags_ok_nil]].
+    destruct (hp_pps st) as [pps|] eqn:Epps.
+    - rewrite Hfl. cbn [hp_disable_stapa hp_sps]. eexists. exists pre. split; [reflexivity|]. split; [exact Hpre|].
+      split; cbn [hp_sps hp_pps]; discriminate.
+    - eexists. exists []. split; [reflexivity|]. split; [apply frags_ok_nil|].
+      split; cbn [hp_sps hp_pps]; [exact Hs|discriminate]. }
   destruct (negb (hp_disable_stapa st)); [|apply (Hsingle st []); [exact Hst|apply frags_ok_nil]].
-  destruct (hp_sps st) as [sps|] eqn:Esps; [|apply (Hsingle st []); [split; [rewrite Esps; discriminate|exact Hp]|apply frags_ok_nil]].
-  destruct (hp_pps st) as [pps|] eqn:Epps; [|apply (Hsingle st []); [split; [rewrite Esps; exact Hs|rewrite Epps; discriminate]|apply frags_ok_nil]].
-  match goal with |- context [if ?c then _ else _] => destruct c eqn:E end.
-  - apply Hsingle; [apply held_ok_fresh|].
-    apply frags_ok_one. split; [|lia]. rewrite zlen_cons.
-    pose proof (zlen_nonneg (put16 (u16 (zlen sps)) ++ sps ++ put16 (u16 (zlen pps)) ++ pps)). lia.
-  - destruct (packetize_nalu_ok mtu sps ltac:(intros ->; apply Hs; reflexivity)) as (f1 & -> & Hok1).
-    destruct (packetize_nalu_ok mtu pps ltac:(intros ->; apply Hp; reflexivity)) as (f2 & -> & Hok2).
-    apply Hsingle; [apply held_ok_fresh|apply frags_ok_app; assumption].
+  rewrite Hfl. apply Hsingle; [apply held_ok_fresh|exact Hpre].
 Qed.
 
 Lemma h264_nalus_ok mtu : forall nalus st, held_ok st ->
